@@ -126,16 +126,13 @@ def fault_worker(args):
             f = ctx.choose(2, 'fail:%s:%s:%d' % (label, op, k)) == 1
             log.append((label, op, k, f))
             return f
+        net_0, _, end_0 = run(ctx, vals, None)          # reference first: the process is still pristine
         net_f, info, end_f = run(ctx, vals, plan)
-        net_0, _, end_0 = run(ctx, vals, None)
         return vals, net_f, info, end_f, net_0, log
-    for ctx, out in symx.explore(harness, max_paths=args['max_paths'], timeout_ms=5000, stats=res.stats,
-                                 deadline=time.time() + args['budget_s']):
+    def on_path(ctx, out):
         if isinstance(out, symx.Abort):
-            res.out_of_bound += 1
-            continue
+            return {'oob': True}
         vals, net_f, info, end_f, net_0, log = out
-        res.nontrivial += 1
         problems, cons = [], []
         if net_f.aborted:
             problems.append('script aborted: %s' % net_f.aborted)
@@ -151,19 +148,35 @@ def fault_worker(args):
         prop = False if problems else (z3.And(*[c[1] for c in cons]) if cons else True)
         verdict, model = ctx.prove(prop)
         if verdict == 'unsat':
-            res.reached.add('containment')
-            continue
+            return {'ok': True}
         if verdict == 'unknown':
-            res.inconclusive.append(case.tag)
-            continue
-        res.reached.add('containment')
+            return {'inconclusive': case.tag}
         what = problems[0] if problems else 'other devices received different values'
         cv = scripth.concrete_values(case, ctx.model_values(model))
         fails = [(l, o, k) for l, o, k, f in log if f]
-        msg = replay_fault(case, prog, slots, cv, faulty, log)
-        res.violation('%s|%s' % (case.tag, scripth._sig_of(what)[:60]),
-                      '%s\n  faults injected (target %s): %s\n  replay: %s\n  script:\n%s' % (what, faulty, fails, msg, scripth.text_with_values(case, cv)),
-                      inputs={'script': scripth.text_with_values(case, cv), 'faults': fails}, replayed=msg is not None)
+        msg = symx.run_in_child(lambda: replay_fault(case, prog, slots, cv, faulty, log))
+        return {'violation': ('%s|%s' % (case.tag, scripth._sig_of(what)[:60]),
+                              '%s\n  faults injected (target %s): %s\n  replay (fresh process): %s\n  script:\n%s' % (what, faulty, fails, msg, scripth.text_with_values(case, cv)),
+                              {'script': scripth.text_with_values(case, cv), 'faults': fails}, msg is not None)}
+
+    # every path (and the replay of a counterexample) runs in a freshly forked process: state that the code
+    # keeps at module or class level cannot leak between fault vectors
+    for kind, summary in symx.explore_forked(harness, on_path, max_paths=args['max_paths'], timeout_ms=5000, stats=res.stats,
+                                             deadline=time.time() + args['budget_s']):
+        if kind == 'error':
+            res.error = summary
+            break
+        if summary.get('oob'):
+            res.out_of_bound += 1
+            continue
+        res.nontrivial += 1
+        if 'inconclusive' in summary:
+            res.inconclusive.append(summary['inconclusive'])
+            continue
+        res.reached.add('containment')
+        if 'violation' in summary:
+            sig, msg_, inputs, replayed = summary['violation']
+            res.violation(sig, msg_, inputs=inputs, replayed=replayed)
     if not symx.explore.last_exhaustive:
         res.exhaustive = False
     res.sample({'script': case.text[:300], 'faulty_target': faulty})
@@ -206,8 +219,9 @@ def replay_fault(case, prog, slots, cv, faulty, log):
                 return f
             n.fault = fault
             return n
-        scripth.world.configure = cfg
         end = {}
+        net0 = scripth.run_vm(case, prog, slots, cv)        # reference run first, in the pristine process
+        scripth.world.configure = cfg
         try:
             net = scripth.run_vm(case, prog, slots, cv, post=lambda n, m: end.update(pc=m._reg.pc, n=len(m._program)))
         finally:
@@ -218,7 +232,6 @@ def replay_fault(case, prog, slots, cv, faulty, log):
             return 'stopped at %s of %s' % (end.get('pc'), end.get('n'))
         if maxc[0] > 3:
             return 'more than 3 attempts'
-        net0 = scripth.run_vm(case, prog, slots, cv)
         a, b = others_trace(scripth.norm_vm_trace(net.trace), faulty), others_trace(scripth.norm_vm_trace(net0.trace), faulty)
         if a != b:
             return 'other devices: %r vs %r' % (a[:3], b[:3])
